@@ -290,6 +290,15 @@ func runC05(c *core.Ctx) {
 									// one representative path per model state goes to the real engines
 									e2eMuLocal.Lock()
 									e2eItems = append(e2eItems, e2eItem{File: file, Path: path, Budget: budget})
+									if !quick || bi == 0 {
+										for _, ev := range path {
+											if ev == evCut {
+												// the same path with its cuts happening the other way: writes fail first
+												e2eItems = append(e2eItems, e2eItem{File: file, Path: path, Budget: budget, Mode: 1})
+												break
+											}
+										}
+									}
 									e2eMuLocal.Unlock()
 								}
 								// convergence probe from this state
